@@ -174,11 +174,13 @@ def mc_module(configs):
     return """----------------------------- MODULE PlayersMC -----------------------------
 EXTENDS Players
 MCConfigs == {%s}
+\* schedule shaping for simulation only: most of the time players join right at the start of a first ball
+GenShape == (ph = "ball" /\ P[cur].ball = 1 /\ np < cfg.maxp /\ bops = 0 /\ nops %% 4 # 3) => act'.op = "addplayer"
 =============================================================================
 """ % ', '.join(to_tla(c) for c in configs)
 
 
-def cfg_text(spec, configs_def, acts, maxops, maxadv, maxgames, maxeb, props):
+def cfg_text(spec, configs_def, acts, maxops, maxadv, maxgames, maxeb, props, ballops=1000000, maxreq=2):
     return """SPECIFICATION %s
 CONSTANTS
   Configs <- %s
@@ -188,9 +190,11 @@ CONSTANTS
   MaxAdv = %d
   MaxGames = %d
   MaxEB = %d
+  MaxBallOps = %d
+  MaxReq = %d
   Deviations = {}
 %sCHECK_DEADLOCK FALSE
-""" % (spec, configs_def, ', '.join('"%s"' % a for a in acts), maxops, maxadv, maxgames, maxeb, props)
+""" % (spec, configs_def, ', '.join('"%s"' % a for a in acts), maxops, maxadv, maxgames, maxeb, ballops, maxreq, props)
 
 
 PROPS = ('INVARIANT TypeOK\nINVARIANT Attached\nINVARIANT NothingSurvives\nPROPERTY Frame\nPROPERTY Restore\n'
@@ -201,6 +205,14 @@ MC_RUNS = [
     ('two-games', [dict(bpg=2, maxp=2)], ['modereq', 'addplayer', 'score', 'mode', 'endgame'], (4, 5), 0, 2, 0),
     ('shots+achievement+vars', [dict(bpg=2, maxp=2), dict(bpg=3, maxp=1)], ['addplayer', 'shot', 'ach', 'var'], (4, 5), 0, 1, 0),
     ('gm2+timer', [dict(bpg=2, maxp=2)], ['addplayer', 'mode', 'timer', 'eb'], (5, 6), (3, 4), 1, 1),
+]
+
+# schedule generation profiles: (action families, ops per ball, share of the schedules)
+GEN_PROFILES = [
+    (ALL_ACTS, 6, 0.3),
+    (['modereq', 'addplayer', 'lb', 'mode', 'score', 'eb'], 5, 0.25),
+    (['modereq', 'addplayer', 'shot', 'ach', 'var', 'endgame', 'eb'], 5, 0.2),
+    (['modereq', 'addplayer', 'mode', 'timer'], 6, 0.25),
 ]
 
 # ---- execution on real mpf -------------------------------------------------------------------------------------------
@@ -416,9 +428,13 @@ def run(ctx):
     # schedules
     with open(wd + '/PlayersMC.tla', 'w') as f:
         f.write(mc_module(CONFIGS))
-    with open(wd + '/Gen.cfg', 'w') as f:
-        f.write(cfg_text('Spec', 'MCConfigs', ALL_ACTS, 60, 12, 2, 1, ''))
-    behs, _ = tlc.simulate(wd, 'PlayersMC', 'Gen.cfg', num=220 if ctx.quick else 3000, depth=70 if ctx.quick else 90, seed=ctx.seed)
+    behs = []
+    for gi, (acts, ballops, share) in enumerate(GEN_PROFILES):
+        with open(wd + '/Gen%d.cfg' % gi, 'w') as f:
+            f.write(cfg_text('Spec', 'MCConfigs', acts, 70, 16, 2, 1, 'ACTION_CONSTRAINT GenShape\n', ballops=ballops, maxreq=1))
+        b, _ = tlc.simulate(wd, 'PlayersMC', 'Gen%d.cfg' % gi, num=int((240 if ctx.quick else 3200) * share),
+                            depth=64 if ctx.quick else 90, seed=ctx.seed + gi)
+        behs += b
     jobs = [(ctx.scratch, {'bpg': b[0]['cfg']['bpg'], 'maxp': b[0]['cfg']['maxp']}, [s['act'] for s in b], ctx.seed * 1000 + i)
             for i, b in enumerate(behs)]
     for ci, s in handmade():
